@@ -599,6 +599,9 @@ func genProgram(rng *rand.Rand, name string) *Program {
 		names = append(names, fmt.Sprintf("n%d", i))
 	}
 	nflags := 8 + fc
+	if rng.Intn(3) == 0 {
+		p.OutputSize = 24 + rng.Intn(120)
+	}
 	clientFlag := func() int { return 8 + rng.Intn(fc) }
 	anyFlag := func() int { return rng.Intn(nflags) }
 	// symbols
@@ -610,6 +613,17 @@ func genProgram(rng *rand.Rand, name string) *Program {
 		nalt := 1 + rng.Intn(3)
 		for a := 0; a < nalt; a++ {
 			r := SymResult{Id: string(rune('a' + rng.Intn(26))), Len: []int{0, 1, 2, 3, 5, 8, 13}[rng.Intn(7)], Set: []int{}, Reset: []int{}}
+			if rng.Intn(4) == 0 {
+				// multi-line content (rows for a sink)
+				var rows []string
+				for k, nr := 0, 2+rng.Intn(7); k < nr; k++ {
+					rows = append(rows, strings.Repeat(string(rune('a'+k)), []int{0, 1, 3, 5, 9, 14}[rng.Intn(6)]))
+				}
+				r.Content = strings.Join(rows, "\n")
+				if r.Content == "" {
+					r.Content = "z"
+				}
+			}
 			switch rng.Intn(12) {
 			case 0:
 				r.Err = true
